@@ -892,6 +892,14 @@ class Interp:
             r = self.hooks.external_call(self, name, node, args, this_cell)
             return self.eval(args[0]) if r is NotImplemented else r
         r = self.hooks.external_call(self, name, node, args, this_cell)
+        if r is NotImplemented and name.endswith('::operator=') and this_cell is not None and len(args) == 1 and fdecl is None:
+            # implicitly defined copy/move assignment of a plain record (no definition in the sources): member-wise copy
+            src = self.lval(args[0]).value if (args[0].get('lv') or args[0].get('xv')) else self.eval(args[0])
+            if isinstance(src, Cell):
+                src = src.value
+            if isinstance(src, Obj):
+                self.write(this_cell, self.copy_value(src), node)
+                return this_cell
         if r is NotImplemented:
             raise Unsupported('call to external function %s at %s' % (name, self.loc(node)))
         return r
